@@ -68,10 +68,10 @@ def gen_search_patterns(rng, tree, vpattern, pep_ok, count, first_marker, allow_
     for _ in range(count):
         m = "@k%d" % marker_no
         marker_no += 1
-        shape = rng.choice(["A", "A", "B", "B", "C", "C", "D", "E", "E", "G", "H"])
+        shape = rng.choice(["A", "A", "B", "B", "C", "C", "D", "E", "E", "G", "H", "Q"])
         if shape == "C" and not pep_ok:
             shape = "A"
-        if is_legacy and shape in ("G",):
+        if is_legacy and shape in ("G", "Q"):
             shape = "B"
         if shape == "A":
             prefix, region, suffix = m + ": ", "{version}", ""
@@ -83,6 +83,10 @@ def gen_search_patterns(rng, tree, vpattern, pep_ok, count, first_marker, allow_
             prefix, region, suffix = style[0], "{pep440_version}", style[1]
         elif shape == "D":
             prefix, region, suffix = m + " v=", vpattern, rng.choice(["", ";", '"'])
+        elif shape == "Q":
+            # a pattern that itself begins and ends with a quote character (the quotes are pattern text in every syntax)
+            q = rng.choice(["'", '"'])
+            prefix, region, suffix = "%s%s v " % (q, m), "{version}", q
         elif shape == "H":
             # comment-like and separator characters *inside* a pattern (a value must not be cut at ' #' or ' ;')
             prefix, region = m + " = ", "{version}"
@@ -175,8 +179,11 @@ def gen_file(rng, path, pats, mode, regime, digits_ok=True):
             "shared_lines": shared}
 
 
-def config_glob_key(syntax):
-    """A glob that matches exactly the config file (and no other generated file)."""
+def config_glob_key(syntax, kind="glob"):
+    """A second way of naming the config file in file_patterns: a glob that matches exactly it (and no other generated
+    file), or a legal non-normalised spelling of its path."""
+    if kind == "dot":
+        return "./" + syntax
     return syntax[:-1] + "?"
 
 
@@ -244,11 +251,20 @@ def gen_project(rng, mode="plain", syntaxes=None, allow_mixed=True, max_files=4,
                              "suffix": ""})
             f = gen_file(rng, path, pats, mode, regime)
         files.append(f)
+    # a group of files reached only through one recursive glob, at several depths and through dot-directories
+    if allow_glob and not ini and rng.random() < 0.15:
+        gpaths = rng.sample(["top.ver", "src/pkg/sub/deep/x.ver", ".hidden/y.ver", "src/.dot.ver", "src/one.ver"], rng.randint(2, 4))
+        gpats = gen_search_patterns(rng, tree, vpattern, pep_ok, rng.choice([1, 2]), marker, False, ini)
+        marker += len(gpats)
+        for gp_ in gpaths:
+            gf = gen_file(rng, gp_, gpats, mode, rng.choice(["lf", "crlf"]))
+            gf["glob_group"] = True
+            files.append(gf)
     # README-style calendar patterns next to a version pattern that carries no year ("Copyright (c) 2018-YYYY")
     clock_slots = False
     if clock_patterns and not legacy and not (set(rp.fields_of(tree)) & {"year_y", "year_g"}) and files and rng.random() < 0.4:
-        f = rng.choice([x for x in files if not x.get("bare")] or files)
-        if not f.get("bare"):
+        f = rng.choice([x for x in files if not x.get("bare") and not x.get("glob_group")] or files)
+        if not f.get("bare") and not f.get("glob_group"):
             m = "@k%d" % marker
             marker += 1
             style = rng.choice([("%s (c) 2018-" % m, "YYYY", " corp"), ("%s built " % m, "YYYY-0M-0D", ""),
@@ -266,7 +282,11 @@ def gen_project(rng, mode="plain", syntaxes=None, allow_mixed=True, max_files=4,
                 clock_slots = True
     # config entries: explicit path, a glob that matches exactly this file, or the patterns split over two entries
     entries = []
+    if any(f.get("glob_group") for f in files):
+        entries.append(["**/*.ver", [f for f in files if f.get("glob_group")][0]["patterns"]])
     for f in files:
+        if f.get("glob_group"):
+            continue
         path = f["path"]
         r = rng.random()
         key = path
@@ -290,6 +310,11 @@ def gen_project(rng, mode="plain", syntaxes=None, allow_mixed=True, max_files=4,
                 continue
         if key != path:
             f["globbed"] = True
+        elif allow_glob and rng.random() < 0.12 and all(ch not in path for ch in "[]*?"):
+            # a legal but non-normalised spelling of the same path
+            key = rng.choice(["./" + path, path.replace("/", "//", 1) if "/" in path else "./" + path,
+                              path.replace("/", "/./", 1) if "/" in path else "./" + path])
+            f["respelled"] = True
         entries.append([key, f["patterns"]])
     explicit_self = rng.random() < 0.5
     rng.shuffle(entries)
@@ -300,7 +325,8 @@ def gen_project(rng, mode="plain", syntaxes=None, allow_mixed=True, max_files=4,
         # a glob entry that (also) covers the config file itself; its pattern occurs in a comment line of the config
         m = "@k%d" % marker
         marker += 1
-        cfg_glob = {"key": config_glob_key(syntax), "raw": "%s: {version}" % m, "prefix": "# %s: " % m}
+        kind = rng.choice(["glob", "dot"])
+        cfg_glob = {"key": config_glob_key(syntax, kind), "kind": kind, "raw": "%s: {version}" % m, "prefix": "# %s: " % m}
         entries.insert(rng.randint(0, len(entries)), [cfg_glob["key"], [cfg_glob["raw"]]])
     settings = {"commit": False, "tag": False, "push": False}
     if vcs == "fake" or (vcs == "maybe" and rng.random() < 0.4):
